@@ -23,7 +23,7 @@ RULE = ("abstract block trees of depth 0-3 over <=4 qubits: repetitions in {0,1,
 ASSUMPTIONS = ["flattening rules transcribed from the CircuitOperation docstrings (maps inner-to-outer, inverse for negative "
                "repetitions, repetition ids prefix measurement keys, control keys bind to the innermost scope that measured them earlier)",
                "catalogue matrices are ground truth"]
-MIN_EVAL = {"unitary==flat": 150, "distribution==flat": 150, "keys==flat": 300, "unrolled-forms==flat": 300, "composition-laws": 150}
+MIN_EVAL = {"unitary==flat": 150, "distribution==flat": 150, "keys==flat": 300, "unrolled-forms==flat": 300, "composition-laws": 150, "symbolic-repetitions": 200}
 MUST_REACH = [
     "cirq/circuits/circuit_operation.py:CircuitOperation._mapped_any_loop",
     "cirq/circuits/circuit_operation.py:CircuitOperation._mapped_single_loop",
@@ -84,8 +84,9 @@ def sec_unitary(ctx, rng, case):
     dims = (2,) * n
     items = B.gen_body(rng, n, depth=int(rng.integers(1, 4)), visible=set(), budget=[0], allow_measure=False)
     if not _has_block(items):
-        items.append({"t": "B", "body": [P.gen_unitary_step(rng, dims) for _ in range(int(rng.integers(1, 4)))],
-                      "reps": int(rng.choice([2, -1, 3, 0, -2])), "ids": None, "use_ids": None, "qmap": {}, "kmap": {}})
+        body_ = [P.gen_unitary_step(rng, dims) for _ in range(int(rng.integers(1, 4)))]
+        items.append({"t": "B", "body": body_, "reps": int(rng.choice([2, -1, 3, 0, -2] if B._is_unitary_items(body_) else [2, 1, 3, 0])),
+                      "ids": None, "use_ids": None, "qmap": {}, "kmap": {}})
     qubits = P.make_qubits(rng, dims)
     circuit = cirq.Circuit(B.items_to_moments(items, qubits))
     flat = B.flatten(items)
@@ -205,7 +206,7 @@ def sec_compose(ctx, rng, case):
     n = int(rng.integers(2, 5))
     dims = (2,) * n
     qubits = P.make_qubits(rng, dims)
-    steps = P.gen_unitary_program(rng, dims, int(rng.integers(1, 5)))
+    steps = P.gen_unitary_program(rng, dims, int(rng.integers(1, 5)), pred=lambda sp: "custom" not in sp.tags)  # (op**-1 below)
     with_meas = rng.random() < 0.5
     if with_meas:
         steps.append({"t": "M", "key": "a", "w": (int(rng.integers(n)),)})
@@ -285,7 +286,7 @@ def sec_single_qubit(ctx, rng, case):
             ops.append(spec.make(st["p"]).on(*([q] if st["w"] else [])))
             ref.append(I.U(spec.ref(st["p"]), st["w"]))
     has_sym = any(cirq.is_parameterized(o) for o in ops)
-    reps = int(rng.choice([1, 2, -1, 3]))
+    reps = int(rng.choice([1, 2, -1, 3] if all(not st_["spec"].startswith("UnitaryOnly") for st_ in steps) else [1, 2, 3]))
     kw = {"repetitions": reps}
     if has_sym:
         kw["param_resolver"] = {"t": val}
@@ -470,6 +471,64 @@ def sec_repeat_until(ctx, rng, case):
     ctx.sample({"n": n, "body": P.describe(body), "exit_on": exit_on, "paths": len(ex.paths), "iterations_in_reference": it + 1})
 
 
+def sec_symbolic_reps(ctx, rng, case):
+    """a sub-circuit whose repetition count is a symbol (or is replaced later): whatever was asked of the operation before,
+    the resolved operation applies the body - or, for a negative count, its inverse - that many times"""
+    import cirq
+    import sympy
+
+    n = int(rng.integers(1, 4))
+    dims = (2,) * n
+    qubits = P.make_qubits(rng, dims)
+    steps = P.gen_unitary_program(rng, dims, int(rng.integers(1, 5)), pred=lambda sp: "custom" not in sp.tags and "matrix" not in sp.tags)
+    body = cirq.FrozenCircuit(P.to_moments(steps, qubits, rng, "greedy"))
+    Ub = I.unitary_of(P.to_ref(steps), dims)
+    route = int(rng.integers(3))
+    if route < 2:
+        op = cirq.CircuitOperation(body, repetitions=sympy.Symbol("r"))
+    else:
+        op = cirq.CircuitOperation(body, repetitions=int(rng.choice([0, 1, 2])))
+    # queries that may fill per-instance caches, in random order
+    asked = []
+    for qn in rng.permutation(5)[: int(rng.integers(0, 5))]:
+        qn = int(qn)
+        asked.append(["parameter_names", "parameter_symbols(circuit)", "has_unitary", "is_parameterized", "measurement_key_names"][qn])
+        if qn == 0:
+            cirq.parameter_names(op)
+        elif qn == 1:
+            cirq.parameter_symbols(cirq.Circuit(op))
+        elif qn == 2:
+            cirq.has_unitary(op)
+        elif qn == 3:
+            cirq.is_parameterized(op)
+        else:
+            cirq.measurement_key_names(op)
+    r = int(rng.choice([-3, -2, -1, 0, 1, 2, 3]))
+    if route == 0:
+        res = cirq.resolve_parameters(op, {"r": r})
+        how = "resolve_parameters"
+    elif route == 1:
+        res = cirq.resolve_parameters(cirq.Circuit(op), {"r": r})[0].operations[0]
+        how = "resolve_parameters(circuit)"
+    else:
+        res = op.replace(repetitions=r)
+        how = "replace(repetitions)"
+    want = np.linalg.matrix_power(Ub if r >= 0 else Ub.conj().T, abs(r))
+    wit = dict(n=n, program=P.describe(steps), repetitions=r, how=how, asked_before=asked)
+    ctx.check(res.repetitions == r, "symbolic-repetitions", "C12:symbolic-repetitions:count", "repetitions %r" % (res.repetitions,), **wit)
+    forms = [("mapped_circuit", lambda: res.mapped_circuit(deep=True)), ("decompose", lambda: cirq.Circuit(cirq.decompose_once(res))),
+             ("circuit", lambda: cirq.Circuit(res))]
+    for name, mk in forms:
+        c2 = mk()
+        u2 = c2.unitary(qubit_order=qubits, qubits_that_should_be_present=qubits)
+        ctx.check(L.allclose(u2, want, 1e-6), "symbolic-repetitions", "C12:symbolic-repetitions:" + name,
+                  lambda: "%s of the operation with repetitions=%d deviates from the body's %d-th matrix power by %.3g" % (name, r, r, L.maxdiff(u2, want)), **wit)
+    psi = cirq.Simulator(dtype=np.complex128).simulate(cirq.Circuit(res), qubit_order=qubits).final_state_vector
+    ctx.check(L.allclose(psi, want[:, 0], 1e-6), "symbolic-repetitions", "C12:symbolic-repetitions:simulate", "", **wit)
+    ctx.distinct((tuple(P.describe(steps)), r, how, tuple(asked)), nontrivial=r != 0 and not L.allclose(Ub @ Ub, np.eye(2 ** n), 1e-6))
+    ctx.sample({"program": P.describe(steps)[:5], "repetitions": r, "how": how, "asked_before": asked})
+
+
 SECTIONS = [
     ("unitary", sec_unitary, 2000, 40000, 2.0),
     ("measured", sec_measured, 2800, 50000, 4.0),
@@ -477,4 +536,5 @@ SECTIONS = [
     ("single_qubit", sec_single_qubit, 900, 15000, 0.5),
     ("shadow", sec_shadow, 2500, 50000, 3.0),
     ("repeat_until", sec_repeat_until, 500, 10000, 2.0),
+    ("symbolic_reps", sec_symbolic_reps, 700, 12000, 1.0),
 ]
